@@ -187,13 +187,13 @@ CHECKS['C07'] = dict(
 
 CHECKS['C10'] = dict(
     text='Theorems (unbounded: any box forest): C10_others_untouched (every top-level box other than moov is passed through in order), '
-         'C10_vod_children (moov children = stored children ++ pssh boxes), C10_identity (no pssh and no direct mehd child: the stored '
+         'C10_vod_children (moov children = stored children ++ pssh boxes), C10_identity (no pssh and no mehd under moov or moov/mvex: the stored '
          'init segment), C10_wellformed (the result parses back to the rewritten tree: sizes nest) about a transcription of '
          'generate_init_segment over the box framing model. Tied to /repo over HTTP: every init response (5 representations x mode x '
          'DRM selections x single/multi-period routes) equals the model output byte for byte; an independent walker decides which '
          'pssh boxes must be present (SystemIDs by selection and locations, KID inside) and that nothing else differs.',
-    note=TB + 'the pssh payloads themselves are not modelled here (C11); mehd lives in moov/mvex in every fixture, so the live-mode '
-         'removal of a DIRECT mehd child never fires on real media (recorded as an observation); harness/shims used for the app.',
+    note=TB + 'the pssh payloads themselves are not modelled here (C11); C10_live_mehd_removed: in live mode the mehd box goes from moov and '
+         'from moov/mvex (the pinned code only looked under moov: repaired); harness/shims used for the app.',
     technique='Coq proof (list/tree reasoning over the framing model) + byte-for-byte HTTP correspondence + independent box walker oracle',
     design='C04-C03-C10')
 
